@@ -869,6 +869,107 @@ func typesGen(s pbt.Src, thorough bool) TypesCase {
 	return c
 }
 
+// ---------------------------------------------------------------------------
+// ptrvalues: values are pointers (identity matters, equal contents do not); Remove of the key being visited from inside
+// the Traverse callback (the repository's own test drains its tree that way)
+
+// PtrCase: Ops are (kind, key): kind 0 Put(k, a NEW pointer to the integer k%3), 1 Remove(k), 2 Get(k), 3 Traverse whose
+// callback removes every visited key that is a multiple of the op's key+2 (the model removes the same keys).
+type PtrCase struct {
+	N   int      `json:"n"`
+	Ops [][2]int `json:"ops"`
+}
+
+func ptrProp(c PtrCase, r *pbt.R) error {
+	n := c.N
+	if n < 1 || n > 512 || len(c.Ops) > 5000 {
+		return nil
+	}
+	t := btree.New[int, *int]()
+	model := map[int]*int{}
+	rePut, drained := false, false
+	for i, op := range c.Ops {
+		k := ((op[1] % n) + n) % n
+		ctx := func() string {
+			return fmt.Sprintf("btree.New[int, *int] over keys 0..%d, after %d of ops %v (0 Put a new pointer to k%%3, 1 Remove, 2 Get, 3 Traverse removing the visited multiples of k+2)", n-1, i+1, c.Ops)
+		}
+		switch ((op[0] % 4) + 4) % 4 {
+		case 0:
+			v := new(int)
+			*v = k % 3
+			if old, ok := model[k]; ok && *old == *v {
+				rePut = true
+			}
+			t.Put(k, v)
+			model[k] = v
+		case 1:
+			t.Remove(k)
+			delete(model, k)
+		case 2:
+			got, ok := t.Get(k)
+			want, wok := model[k]
+			if ok != wok || (ok && got != want) {
+				return fmt.Errorf("%s: Get(%d) = (%p, %v), want the pointer put last (%p, %v); both point to %d", ctx(), k, got, ok, want, wok, k%3)
+			}
+		default:
+			m := k + 2
+			var seen []int
+			bad := ""
+			t.Traverse(func(key int, val *int) {
+				if len(seen) > len(model)+4 {
+					return
+				}
+				seen = append(seen, key)
+				if want, ok := model[key]; !ok || want != val {
+					if bad == "" {
+						bad = fmt.Sprintf("visits key %d with %p, the model has (%p, present %v)", key, val, want, ok)
+					}
+					return
+				}
+				if key%m == 0 {
+					t.Remove(key)
+					delete(model, key)
+					drained = true
+				}
+			})
+			if bad != "" {
+				return fmt.Errorf("%s: Traverse %s; visited %v", ctx(), bad, seen)
+			}
+			for j := 1; j < len(seen); j++ {
+				if seen[j-1] >= seen[j] {
+					return fmt.Errorf("%s: Traverse visited %v: not ascending, or a key twice", ctx(), seen)
+				}
+			}
+		}
+		if t.Size() != len(model) || t.IsEmpty() != (len(model) == 0) {
+			return fmt.Errorf("%s: Size() = %d, IsEmpty() = %v, want %d keys", ctx(), t.Size(), t.IsEmpty(), len(model))
+		}
+	}
+	for k := 0; k < n; k++ {
+		got, ok := t.Get(k)
+		want, wok := model[k]
+		if ok != wok || (ok && got != want) {
+			return fmt.Errorf("btree.New[int, *int] after ops %v: Get(%d) = (%p, %v), want (%p, %v)", c.Ops, k, got, ok, want, wok)
+		}
+	}
+	cnt := 0
+	t.Traverse(func(key int, val *int) {
+		if want, ok := model[key]; ok && want == val {
+			cnt++
+		} else {
+			cnt += 1000000
+		}
+	})
+	if cnt != len(model) {
+		return fmt.Errorf("btree.New[int, *int] after ops %v: the final Traverse does not visit exactly the %d present keys with their current pointers", c.Ops, len(model))
+	}
+	r.NonTrivialIf(rePut, "a live key was put again with another pointer to an equal integer")
+	if drained {
+		r.Label("the Traverse callback removed a visited key")
+	}
+	return nil
+}
+
 func TestProp(t *testing.T) {
 	// Millions of tiny short-lived cases on a live heap of a few kilobytes: with the default
 	// setting the collector runs every 4 MB of allocation and dominates the run time.
@@ -904,10 +1005,26 @@ func TestProp(t *testing.T) {
 			RapidQuick: 250, RapidThorough: 2500,
 			Fixed: fixedLong(),
 		},
+		&pbt.Check[PtrCase]{
+			Name: "ptrvalues",
+			Rule: "btree.New[int, *int]: every Put stores a NEW pointer to the integer k%3, so a live key is regularly put again with a different pointer to an equal integer: Get and Traverse must hand out the pointer put last (identity). One operation in six is a Traverse whose callback removes the visited keys that are multiples of a number (as the repository's own test drains its tree), after earlier removals have left tombstones; " +
+				"Size/IsEmpty after every operation, Get of every key and a Traverse at the end. Random: up to 120 (500) operations over 3..40 keys. Non-trivial = a re-Put with an equal-looking value happened.",
+			Gen: func(s pbt.Src, thorough bool) PtrCase {
+				max := 120
+				if thorough {
+					max = 500
+				}
+				c := PtrCase{N: pbt.Pick(s, 3, 6, 12, 40)}
+				c.Ops = pbt.Seq(s, 1, max, func(s pbt.Src) [2]int { return [2]int{pbt.Pick(s, 0, 0, 0, 1, 2, 3), s.Intn(c.N)} })
+				return c
+			},
+			Prop: ptrProp, OutOfEnum: func(PtrCase, bool) bool { return true },
+			RapidQuick: 600, RapidThorough: 8000,
+		},
 		&pbt.Check[TypesCase]{
 			Name: "types",
 			Rule: "the same map semantics on other instantiations: btree.New[K, struct] with K = string (\"k007\"), float64 (c/4-3, negative, fractional and zero keys, the zero spelled -0.0 and +0.0 in turn; consecutive representable values at 0.3, at 1e300 and from zero up through the subnormals), uint8 and strings with a multi-byte prefix; random Put/Remove/Get sequences of up to 150 (600) operations over 3..80 keys against a Go map: Get, Size, IsEmpty after every operation, ascending Traverse and the height bound at the end. Non-trivial = >= 5 distinct keys.",
-			Gen: typesGen, Prop: typesProp, OutOfEnum: func(TypesCase, bool) bool { return true },
+			Gen:  typesGen, Prop: typesProp, OutOfEnum: func(TypesCase, bool) bool { return true },
 			RapidQuick: 400, RapidThorough: 5000,
 		},
 	)
